@@ -16,6 +16,7 @@ C->S     : seeded runs over Hamiltonian families (exact domain: classical energy
            update; spec/C10/C10_Trace.tla (stateful) judges every record.
 """
 
+import concurrent.futures as cf
 import warnings
 
 import numpy as np
@@ -36,6 +37,7 @@ SELFTESTS = (
     ("MC_mut_skip_last.cfg", "SweepOrder", "sweep range one block short"),
     ("MC_kf1.cfg", "WiringMatchesApply", "KF-C10-1: ket attached to the operator's upper leg"),
     ("MC_kf2.cfg", "EndNormalizedAnyCap", "KF-C10-2: last split truncates when cap < d, no renormalisation"),
+    ("MC_kf3.cfg", "CanonAtUpdateAlways", "KF-C10-3: one-site alternate sweep not canonized after the bond expansion"),
 )
 
 
@@ -49,6 +51,8 @@ def make_ham(rng, spec):
     out = {"f": [], "g": [], "us": [], "dmpo": 0}
     if fam == "classical":
         f, g = U.random_classical(rng, L, d, spec["kind"])
+        if spec.get("shift"):                       # positive spectrum
+            f = [[x + 2 for x in row] for row in f]
         pool = U.UNITARIES[d] if spec["cplx"] else U.REAL_UNITARIES[d]
         us = [str(pool[int(rng.integers(len(pool)))]) for _ in range(L)]
         if spec["cplx"] and not any(u in ("SH", "TH", "F", "ZF") for u in us):
@@ -62,7 +66,7 @@ def make_ham(rng, spec):
         if kind == "randmpo":
             ham = U.random_herm_mpo(rng, L, d, int(rng.integers(2, 5)), spec["cplx"])
         elif kind == "spin":
-            ham = U.spin_ham(rng, L, (d - 1) / 2, spec["cplx"])
+            ham = U.spin_ham(rng, L, (d - 1) / 2, spec["cplx"], shift=2.0 if spec.get("shift") else 0.0)
         elif kind == "lib_rand":
             ham = qtn.MPO_rand_herm(L, 3, phys_dim=d, dtype=complex if spec["cplx"] else float,
                                     seed=int(rng.integers(1 << 30)))
@@ -159,7 +163,7 @@ def run_one(rec, rng, tid, spec):
             run["ep0"] = q7(m0.emd)
             run["ketleg"] = "upper" if dm._k.site_ind_id == dm.ham.upper_ind_id else (
                 "lower" if dm._k.site_ind_id == dm.ham.lower_ind_id else "?")
-            rec.arm(dm, ham, Hd, tid, cplx, d)
+            rec.arm(dm, ham, Hd, tid, cplx, d, ep0T=m0.emT)
             conv = False
             if spec["mode"] == "solve":
                 conv = dm.solve(tol=spec["tol"], sweep_sequence="".join(seq), max_sweeps=spec["maxsw"])
@@ -194,19 +198,50 @@ def run_one(rec, rng, tid, spec):
                 for idx in np.nonzero(p >= 5e-8)[0]:
                     wts.append([[int(x) for x in np.unravel_index(int(idx), (d,) * L)], qabs(p[idx], 1e-7)])
             fin["wts"] = wts
-            fin["tconj"] = bool(cplx and abs(energy.real - m.emT) <= 2e-6 * (1 + abs(energy.real)) and infidT <= 1e-5) \
-                if solve else False
+            # narrowing fields for KF-C10-1 (never used for a verdict)
+            fin["tconj"] = bool(solve and cplx and abs(energy.real - m.emT) <= 2e-6 * (1 + abs(energy.real)))
+            fin["tconjgs"] = bool(cplx and infidT <= 1e-5)
             rec.recs.append(fin)
     except Exception as ex:  # noqa  - an exception is an observation, the spec decides
+        noniso = bool(rec.cur and rec.cur.get("fail_noniso"))
         rec.disarm()
         rec.recs.append({"ev": "final", "tid": tid, "cplx": cplx, "bsz": bsz, "conv": False, "energy": 0, "eim": 0,
                          "energies": [], "ema": 0, "emd": 0, "n7": 0, "w9": 0, "bonds": [], "lasttrunc": False,
-                         "capltd": False, "infid7": 0, "wts": [], "tconj": False,
+                         "capltd": False, "infid7": 0, "wts": [], "tconj": False, "tconjgs": False,
+                         "noniso": noniso, "solverexc": type(ex).__name__ in ("ArpackNoConvergence", "ArpackError"),
                          "exc": type(ex).__name__ + ": " + str(ex)[:120]})
     return len(rec.recs) - recs0
 
 
 IMAXQ = 2 ** 31 - 1
+
+
+def periodic_runs(rng, tid0):
+    import quimb as qu
+    import quimb.tensor as qtn
+
+    recs = []
+    for k, bsz in enumerate((1, 2)):
+        L = 6
+        r = {"ev": "periodic", "tid": tid0 + k, "cplx": False, "tconj": False, "bsz": bsz, "L": L, "exc": "",
+             "e": 0, "ema": 0, "emd": 0, "n7": 0, "e0q": 0}
+        try:
+            with warnings.catch_warnings():
+                warnings.simplefilter("ignore")
+                qu.seed_rand(int(rng.integers(1 << 30)))
+                ham = qtn.MPO_ham_heis(L, j=(1.0, 1.0, float(rng.uniform(0.5, 1.5))), bz=float(rng.uniform(0, 0.5)), cyclic=True)
+                Hd = np.asarray(ham.to_dense())
+                dm = qtn.DMRG(ham, bond_dims=[4, 8], cutoffs=1e-10, bsz=bsz)
+                dm.opts["periodic_segment_size"] = 1.0
+                dm.opts["periodic_nullspace_fudge_factor"] = 1e-6
+                dm.solve(tol=1e-3, max_sweeps=4)
+                m = U.Meas(dm.state, ham, Hd)
+                r.update(e=q7(complex(dm.energy).real), ema=q7(m.ema), emd=q7(m.emd), n7=q7(m.n),
+                         e0q=q7(np.linalg.eigvalsh(Hd)[0]))
+        except Exception as ex:  # noqa
+            r["exc"] = type(ex).__name__ + ": " + str(ex)[:120]
+        recs.append(r)
+    return recs
 
 
 # ----------------------------------------------------------------------------- configuration sampling
@@ -243,10 +278,11 @@ def sample_spec(rng, tier, k):
     if bsz == 1:
         chi0 = min(chi0, min(caps))
     exact = bool(rng.random() < 0.6)
+    shift = bool(rng.random() < 0.3)
     return {"fam": fam, "kind": kind, "cplx": cplx, "L": L, "d": d, "bsz": bsz, "caps": caps, "cuts": cuts,
             "seq": seq, "maxsw": int(rng.choice([3, 4, 6])) if not thorough else int(rng.choice([3, 5, 8])),
             "tol": float(rng.choice([1e-6, 1e-8, 1e-4])), "p0": p0, "chi0": chi0, "exact": exact,
-            "linop": bool((not exact) and rng.random() < 0.5), "mode": "solve"}
+            "linop": bool((not exact) and rng.random() < 0.5), "mode": "solve", "shift": shift}
 
 
 def case_to_spec(case, k):
@@ -264,17 +300,25 @@ def run(ctx):
     quick = ctx.tier == "quick"
     rng = np.random.default_rng(1000 + ctx.seed)
 
-    # 1. TLC: every script of the protocol model keeps the property-level invariants
-    ctx.model_check("MC_C10", "MC_quick.cfg" if quick else "MC_thorough.cfg", name="dmrg-protocol",
-                    require_actions=ACTIONS, timeout=1500)
-    for cfg, inv, what in SELFTESTS:
-        r = T.run_tlc("MC_C10", cfg, ctx.spec_dir, workers=2, allow_violation=True, scratch=ctx.scratch, timeout=300)
-        if r.violated != inv:
-            raise MachineryError("model self-test %s: expected %s to be violated, got %s" % (cfg, inv, r.violated))
-        ctx.extra.setdefault("model_selftests", []).append("%s: TLC finds a %s counterexample (%s)" % (cfg, inv, what))
+    # 1. TLC: every script of the protocol model keeps the property-level invariants; the seeded protocol
+    #    defects and the known findings are configurations that must FAIL; MC_cases prints the replay scripts.
+    #    (the small runs go on in threads while the main exhaustive run uses the workers)
+    def small(cfg, **kw):
+        return T.run_tlc("MC_C10", cfg, ctx.spec_dir, scratch=ctx.scratch, timeout=600, **kw)
+
+    with cf.ThreadPoolExecutor(max_workers=5) as pool:
+        futs = {cfg: pool.submit(small, cfg, workers=1, allow_violation=True) for cfg, _, _ in SELFTESTS}
+        fcases = pool.submit(small, "MC_cases.cfg", workers=1)
+        ctx.model_check("MC_C10", "MC_quick.cfg" if quick else "MC_thorough.cfg", name="dmrg-protocol",
+                        require_actions=ACTIONS, timeout=1500)
+        for cfg, inv, what in SELFTESTS:
+            r = futs[cfg].result()
+            if r.violated != inv:
+                raise MachineryError("model self-test %s: expected %s to be violated, got %s" % (cfg, inv, r.violated))
+            ctx.extra.setdefault("model_selftests", []).append("%s: TLC finds a %s counterexample (%s)" % (cfg, inv, what))
+        res = fcases.result()
 
     # 2. S->C: the scripts TLC enumerates, replayed on the real class
-    res = T.run_tlc("MC_C10", "MC_cases.cfg", ctx.spec_dir, workers=1, scratch=ctx.scratch, timeout=600)
     cases = T.parse_printed_json(res.output)
     if len(cases) < 50:
         raise MachineryError("could not read the enumerated scripts back (%d)" % len(cases))
@@ -303,6 +347,15 @@ def run(ctx):
     fails += ctx.validate("C10_Trace", "Trace.cfg", wrecs, name="runs", ntraces=nruns)
     ctx.extra["dmrg_runs"] = nruns
     ctx.extra["local_updates_judged"] = sum(1 for r in rrecs + wrecs if r["ev"] == "update")
+
+    # 4. periodic boundaries (thorough only: a run takes seconds): energy/state consistency within the
+    #    documented transfer-matrix approximation (the 3e-2 relative tolerance of the repository's own tests)
+    if not quick:
+        precs = periodic_runs(rng, 200000)
+        fails += ctx.validate("C10_Trace", "Trace.cfg", precs, name="periodic", ntraces=len(precs))
+        ctx.extra["periodic_runs"] = len(precs)
+    else:
+        ctx.notes.append("periodic boundaries are exercised in the thorough tier only (a run takes several seconds)")
 
     notes = [f for f in fails if f["clause"].startswith("NOTE:")]
     for n in notes[:10]:
